@@ -466,9 +466,13 @@ Fixpoint set_regex (x : regex) (used : list nat) : list nat :=
   | _ => used
   end.
 
+(* bodies of part rules are swept even when nothing refers to the part rule (fix 872091c) *)
 Definition usage_pass (used : list nat) : list nat :=
-  fold_left (fun u ru => if nmem (r_decl ru) u then match r_body ru with Some b => set_regex b u | None => u end else u)
-            (g_rules g) used.
+  fold_left (fun u p =>
+               let '(i, ru) := p in
+               if nmem (r_decl ru) u || existsb (fun q => Nat.eqb (fst q) i) (g_parts g)
+               then match r_body ru with Some b => set_regex b u | None => u end else u)
+            (enumerate 0 (g_rules g)) used.
 
 Fixpoint usage_iter (fuel : nat) (used : list nat) : list nat :=
   match fuel with
